@@ -97,8 +97,8 @@ fn run(root: PathBuf, out_dir: PathBuf, overrides: HashMap<String, PathBuf>) -> 
     // flattened structs
     for (name, rel) in targets::FLAT_STRUCTS {
         world.load(rel)?;
-        let (s, dd) = find_struct(&world, rel, name, true)?;
-        world.structs.insert(name.to_string(), StructInfo { file: rel.to_string(), fields: s, derives_default: dd, lean_module: None });
+        let (s, dd, generics) = find_struct(&world, rel, name, true)?;
+        world.structs.insert(name.to_string(), StructInfo { file: rel.to_string(), fields: s, generics, derives_default: dd, lean_module: None, bits: false });
     }
 
     let mut modules: BTreeMap<String, ModuleOut> = BTreeMap::new();
@@ -157,10 +157,12 @@ fn run(root: PathBuf, out_dir: PathBuf, overrides: HashMap<String, PathBuf>) -> 
 }
 
 fn write(p: &std::path::Path, s: &str) -> Res<()> {
+    // an unchanged file keeps its modification time (no needless rebuild of the Lean modules)
+    if let Ok(old) = std::fs::read_to_string(p) { if old == s { return Ok(()); } }
     std::fs::write(p, s).map_err(|e| format!("{}: {}", p.display(), e))
 }
 
-fn find_struct(world: &World, rel: &str, name: &str, allow_generics: bool) -> Res<(Vec<(String, syn::Type)>, bool)> {
+fn find_struct(world: &World, rel: &str, name: &str, allow_generics: bool) -> Res<(Vec<(String, syn::Type)>, bool, Vec<String>)> {
     let mut hits = vec![];
     for it in &world.file(rel).items {
         if let syn::Item::Struct(s) = it {
@@ -174,7 +176,14 @@ fn find_struct(world: &World, rel: &str, name: &str, allow_generics: bool) -> Re
                 let mut dd = false;
                 for a in &s.attrs { if a.path().is_ident("derive") { let _ = a.parse_nested_meta(|m| { if m.path.is_ident("Default") { dd = true; } Ok(()) }); } }
                 if !s.generics.params.is_empty() && !allow_generics { return Err(format!("{}: struct `{}`: generics unsupported", world.path_of(rel).display(), name)); }
-                hits.push((fields, dd));
+                let mut generics = vec![];
+                for g in &s.generics.params {
+                    match g {
+                        syn::GenericParam::Type(t) => generics.push(t.ident.to_string()),
+                        _ => return Err(format!("{}: struct `{}`: lifetime / const generics unsupported", world.path_of(rel).display(), name)),
+                    }
+                }
+                hits.push((fields, dd, generics));
             }
         }
     }
@@ -182,7 +191,31 @@ fn find_struct(world: &World, rel: &str, name: &str, allow_generics: bool) -> Re
     Ok(hits.pop().unwrap())
 }
 
-enum Found { Fn(Vec<syn::Attribute>, syn::Signature, syn::Block), Const(Vec<syn::Attribute>, syn::Type, syn::Expr) }
+/// header of the `impl` a function was found in: its generic type parameters and the arguments of the self type
+#[derive(Clone, Default)]
+pub struct ImplCtx { type_params: Vec<String>, self_args: Vec<syn::Type>, bad: Option<String> }
+
+enum Found { Fn(Vec<syn::Attribute>, syn::Signature, syn::Block, ImplCtx), Const(Vec<syn::Attribute>, syn::Type, syn::Expr) }
+
+fn impl_ctx(im: &syn::ItemImpl) -> ImplCtx {
+    let mut c = ImplCtx::default();
+    for g in &im.generics.params {
+        match g {
+            syn::GenericParam::Type(t) => c.type_params.push(t.ident.to_string()),
+            _ => c.bad = Some("lifetime / const generic parameter of the impl".to_string()),
+        }
+    }
+    if let syn::Type::Path(p) = &*im.self_ty {
+        if let Some(seg) = p.path.segments.last() {
+            if let syn::PathArguments::AngleBracketed(ab) = &seg.arguments {
+                for a in &ab.args {
+                    match a { syn::GenericArgument::Type(t) => c.self_args.push(t.clone()), _ => c.bad = Some("non-type generic argument of the impl's self type".to_string()) }
+                }
+            }
+        }
+    }
+    c
+}
 
 /// attributes that do not change what the code computes
 const HARMLESS_ATTRS: &[&str] = &["doc", "inline", "allow", "must_use", "warn", "deny", "expect"];
@@ -214,12 +247,12 @@ fn find_items(world: &World, t: &Target) -> Vec<Found> {
     let mut hits = vec![];
     for it in &world.file(t.file).items {
         match (it, &t.container) {
-            (syn::Item::Fn(f), Container::Free) if f.sig.ident == t.name => hits.push(Found::Fn(f.attrs.clone(), f.sig.clone(), (*f.block).clone())),
+            (syn::Item::Fn(f), Container::Free) if f.sig.ident == t.name => hits.push(Found::Fn(f.attrs.clone(), f.sig.clone(), (*f.block).clone(), ImplCtx::default())),
             (syn::Item::Const(c), Container::Free) if c.ident == t.name => hits.push(Found::Const(c.attrs.clone(), (*c.ty).clone(), (*c.expr).clone())),
             (syn::Item::Trait(tr), Container::Trait(n)) if tr.ident == n => {
                 for ti in &tr.items {
                     match ti {
-                        syn::TraitItem::Fn(f) if f.sig.ident == t.name => { if let Some(b) = &f.default { hits.push(Found::Fn(f.attrs.clone(), f.sig.clone(), b.clone())); } }
+                        syn::TraitItem::Fn(f) if f.sig.ident == t.name => { if let Some(b) = &f.default { hits.push(Found::Fn(f.attrs.clone(), f.sig.clone(), b.clone(), ImplCtx::default())); } }
                         syn::TraitItem::Const(c) if c.ident == t.name => { if let Some((_, e)) = &c.default { hits.push(Found::Const(c.attrs.clone(), c.ty.clone(), e.clone())); } }
                         _ => {}
                     }
@@ -237,7 +270,7 @@ fn find_items(world: &World, t: &Target) -> Vec<Found> {
 fn impl_items(im: &syn::ItemImpl, name: &str, hits: &mut Vec<Found>) {
     for ii in &im.items {
         match ii {
-            syn::ImplItem::Fn(f) if f.sig.ident == name => hits.push(Found::Fn(f.attrs.clone(), f.sig.clone(), f.block.clone())),
+            syn::ImplItem::Fn(f) if f.sig.ident == name => hits.push(Found::Fn(f.attrs.clone(), f.sig.clone(), f.block.clone(), impl_ctx(im))),
             syn::ImplItem::Const(c) if c.ident == name => hits.push(Found::Const(c.attrs.clone(), c.ty.clone(), c.expr.clone())),
             _ => {}
         }
@@ -268,6 +301,8 @@ fn new_tr<'w>(world: &'w World, t: &'w Target, lean_fn: String) -> FnTr<'w> {
         env: vec![], depth: 1, lparams: vec![], ret: RTy::Unit, ret_mode: RetMode::Direct, used: vec![], loops: vec![], loop_counter: 0,
         needs_fuel: false, fuel_var: "fuel".to_string(), value_ty: vec![], deps: HashSet::new(), local_names: HashSet::new(), dup_count: 0,
         rust_params: vec![], self_struct, use_leafs: leafs, use_glob: glob, temp_counter: 0, self_mutated: vec![], poisoned: vec![],
+        subst: HashMap::new(), struct_subst: HashMap::new(), pending: vec![], effect_allowed: None,
+        bits: matches!(t.what, What::Fn { bits: true, .. } | What::ConstB),
     }
 }
 
@@ -314,16 +349,21 @@ fn translate_target(world: &mut World, t: &'static Target) -> Res<(String, HashS
             world.enums.insert(t.name.to_string(), EnumInfo { module: t.module.to_string(), variants });
             Ok((s, deps))
         }
-        What::Struct => {
-            let (fields, dd) = find_struct(world, t.file, t.name, false)?;
+        What::Struct { bits } => {
+            let (fields, dd, _) = find_struct(world, t.file, t.name, false)?;
             let mut s = format!("/-- `struct {}` ({}) -/\nstructure {} where\n", t.name, t.file, t.name);
+            let mut all_prim = true;
             for (f, ty) in &fields {
-                let ty = resolve_type(world, ty, None).map_err(|m| format!("{}: struct {}.{}: {}", path, t.name, f, m))?;
-                if !matches!(ty, RTy::Int(_) | RTy::Bool | RTy::Char) { return Err(format!("{}: struct {}.{}: only primitive fields are supported in a regenerated struct", path, t.name, f)); }
+                let ty = resolve_type_s(world, ty, None, &HashMap::new(), *bits).map_err(|m| format!("{}: struct {}.{}: {}", path, t.name, f, m))?;
+                // arrays / slices are lists (indexing is bounds-checked, like the Rust)
+                let ty = match ty { RTy::VecFn(el) => RTy::VecList(el), t => t };
+                let ok = match &ty { RTy::Int(_) | RTy::Bool | RTy::Char | RTy::U64 => true, RTy::VecList(el) => { all_prim = false; matches!(**el, RTy::Int(_) | RTy::Bool | RTy::Char | RTy::U64) } _ => false };
+                if !ok { return Err(format!("{}: struct {}.{}: only primitive fields and arrays of primitives are supported in a regenerated struct", path, t.name, f)); }
                 s.push_str(&format!("  /-- `{}` -/\n  {} : {}\n", ty.rust(), lean_ident(f), ty.lean()));
             }
             s.push_str("deriving DecidableEq, Repr");
-            world.structs.insert(t.name.to_string(), StructInfo { file: t.file.to_string(), fields, derives_default: dd, lean_module: Some(t.module.to_string()) });
+            let _ = all_prim;
+            world.structs.insert(t.name.to_string(), StructInfo { file: t.file.to_string(), fields, generics: vec![], derives_default: dd, lean_module: Some(t.module.to_string()), bits: *bits });
             Ok((s, HashSet::new()))
         }
         What::NotOverridden => {
@@ -333,7 +373,7 @@ fn translate_target(world: &mut World, t: &'static Target) -> Res<(String, HashS
             }
             Ok((String::new(), HashSet::new()))
         }
-        What::Const => {
+        What::Const | What::ConstB => {
             let mut hits = find_items(world, t);
             if hits.len() != 1 { return Err(format!("{}: expected exactly one const `{}` in {}, found {}", path, t.name, t.container.describe(), hits.len())); }
             let (ty, e) = match hits.pop().unwrap() { Found::Const(attrs, ty, e) => { check_attrs(&path, &format!("const {}", t.name), &attrs)?; (ty, e) } _ => return Err(format!("{}: `{}` is not a const", path, t.name)) };
@@ -358,8 +398,9 @@ fn translate_target(world: &mut World, t: &'static Target) -> Res<(String, HashS
         What::Fn { .. } | What::ClosureFn { .. } => {
             let mut hits = find_items(world, t);
             if hits.len() != 1 { return Err(format!("{}: expected exactly one fn `{}` in {}, found {}", path, t.name, t.container.describe(), hits.len())); }
-            let (sig, block) = match hits.pop().unwrap() { Found::Fn(attrs, s, b) => { check_attrs(&path, &format!("fn {}", t.name), &attrs)?; check_body_attrs(&path, &format!("fn {}", t.name), &b)?; (s, b) } _ => return Err(format!("{}: `{}` is not a fn", path, t.name)) };
-            let (text, info, deps) = translate_fn(world, t, &sig, &block)?;
+            let (sig, block, ictx) = match hits.pop().unwrap() { Found::Fn(attrs, s, b, c) => { check_attrs(&path, &format!("fn {}", t.name), &attrs)?; check_body_attrs(&path, &format!("fn {}", t.name), &b)?; (s, b, c) } _ => return Err(format!("{}: `{}` is not a fn", path, t.name)) };
+            if let Some(b) = &ictx.bad { return Err(format!("{}: fn {}: {}", path, t.name, b)); }
+            let (text, info, deps) = translate_fn(world, t, &sig, &block, &ictx)?;
             let key_name = match &t.what { What::ClosureFn { suffix, .. } => format!("{}_{}", t.name, suffix), _ => t.name.to_string() };
             world.fns.insert((t.container.ns().map(|s| s.to_string()), key_name), info);
             Ok((text, deps))
@@ -386,25 +427,25 @@ fn find_closure(tr: &FnTr, block: &syn::Block, method: &str) -> Res<syn::ExprClo
     Ok(v.hits.pop().unwrap())
 }
 
-/// fields of `self` that a `&mut self` function modifies (statement-level `self.f[..] = ..`, `self.f.resize(..)`, ..)
+/// fields of `self` that a `&mut self` function modifies (`self.f = ..`, `self.f op= ..`, `self.f[..] = ..`,
+/// `self.f.resize(..)`, `self.f.insert(..)`, ..), in order of first occurrence
 fn mutated_self_fields(block: &syn::Block) -> Vec<String> {
     use syn::visit::Visit;
     struct V { out: Vec<String> }
-    fn self_field(e: &syn::Expr) -> Option<String> {
-        if let syn::Expr::Field(f) = e {
-            if crate::expr::path_ident(&f.base).as_deref() == Some("self") { if let syn::Member::Named(i) = &f.member { return Some(i.to_string()); } }
-        }
-        None
-    }
     impl<'ast> Visit<'ast> for V {
         fn visit_expr_assign(&mut self, a: &'ast syn::ExprAssign) {
-            let target = match &*a.left { syn::Expr::Index(ix) => self_field(&ix.expr), e => self_field(e) };
-            if let Some(f) = target { if !self.out.contains(&f) { self.out.push(f); } }
+            if let Some(f) = crate::stmt::mutated_self_field_of_target(&a.left) { if !self.out.contains(&f) { self.out.push(f); } }
             syn::visit::visit_expr_assign(self, a);
         }
+        fn visit_expr_binary(&mut self, b: &'ast syn::ExprBinary) {
+            if crate::stmt::is_compound(&b.op) {
+                if let Some(f) = crate::stmt::mutated_self_field_of_target(&b.left) { if !self.out.contains(&f) { self.out.push(f); } }
+            }
+            syn::visit::visit_expr_binary(self, b);
+        }
         fn visit_expr_method_call(&mut self, m: &'ast syn::ExprMethodCall) {
-            if ["resize", "clear", "push", "pop", "drain", "truncate", "insert", "remove"].contains(&m.method.to_string().as_str()) {
-                if let Some(f) = self_field(&m.receiver) { if !self.out.contains(&f) { self.out.push(f); } }
+            if crate::stmt::MUTATING_METHODS.contains(&m.method.to_string().as_str()) {
+                if let Some(f) = crate::stmt::self_field(&m.receiver) { if !self.out.contains(&f) { self.out.push(f); } }
             }
             syn::visit::visit_expr_method_call(self, m);
         }
@@ -414,13 +455,40 @@ fn mutated_self_fields(block: &syn::Block) -> Vec<String> {
     v.out
 }
 
-fn translate_fn(world: &World, t: &'static Target, sig: &syn::Signature, block: &syn::Block) -> Res<(String, FnInfo, HashSet<String>)> {
+fn translate_fn(world: &World, t: &'static Target, sig: &syn::Signature, block: &syn::Block, ictx: &ImplCtx) -> Res<(String, FnInfo, HashSet<String>)> {
     let lean = match &t.what { What::ClosureFn { suffix, .. } => format!("{}_{}", lean_name(t), suffix), _ => lean_name(t) };
     let mut tr = new_tr(world, t, lean.clone());
+    // generic parameters of the impl are opaque Lean type variables; the generic parameters of the self struct are
+    // instantiated as the impl header says
+    for p in &ictx.type_params {
+        if !p.chars().all(|c| c.is_alphanumeric()) || world.structs.contains_key(p) || world.enums.contains_key(p) { return Err(tr.err(sig, &format!("unsupported generic parameter name `{}`", p))); }
+        tr.subst.insert(p.clone(), RTy::Opaque(p.clone()));
+    }
+    if let Some(sn) = tr.self_struct.clone() {
+        let gens = world.structs[&sn].generics.clone();
+        if gens.len() != ictx.self_args.len() { return Err(tr.err(sig, &format!("struct `{}` has {} generic parameters but the impl header gives {}", sn, gens.len(), ictx.self_args.len()))); }
+        let mut m = HashMap::new();
+        for (g, a) in gens.iter().zip(ictx.self_args.iter()) { m.insert(g.clone(), tr.resolve_type(a)?); }
+        tr.struct_subst.insert(sn, m);
+    } else if !ictx.self_args.is_empty() && !ictx.type_params.is_empty() {
+        return Err(tr.err(sig, "generic impl of a type that is not a registered struct"));
+    }
     if !sig.generics.params.is_empty() { return Err(tr.err(&sig.generics, "generic function")); }
-    if sig.asyncness.is_some() || sig.unsafety.is_some() || sig.variadic.is_some() { return Err(tr.err(sig, "async / unsafe / variadic function")); }
+    // `unsafe fn` is accepted: every operation must still be in the mapping table, and the unchecked operations in it
+    // (`get_unchecked`) are translated as CHECKED ones (`none` = undefined behaviour, to be excluded by the theorems)
+    if sig.asyncness.is_some() || sig.variadic.is_some() { return Err(tr.err(sig, "async / variadic function")); }
     tr.ret = match &sig.output { syn::ReturnType::Default => RTy::Unit, syn::ReturnType::Type(_, ty) => tr.resolve_type(ty)? };
-    match &tr.ret { RTy::Flat(n) => return Err(tr.err(sig, &format!("function returns the struct `{}`", n))), _ => {} }
+    // a constructor (`-> Self`) yields the tuple of all fields, in declaration order
+    let mut ctor_fields: Vec<RTy> = vec![];
+    match &tr.ret {
+        RTy::Flat(n) if Some(n) == tr.self_struct.as_ref() && !sig.inputs.iter().any(|a| matches!(a, syn::FnArg::Receiver(_))) => {
+            for (f, fty) in &world.structs[n].fields {
+                ctor_fields.push(tr.resolve_field_type(fty, n).map_err(|m| tr.err(sig, &format!("field `{}`: {}", f, m)))?);
+            }
+        }
+        RTy::Flat(n) => return Err(tr.err(sig, &format!("function returns the struct `{}`", n))),
+        _ => {}
+    }
     // parameters
     let mut mut_self = false;
     for (i, a) in sig.inputs.iter().enumerate() {
@@ -460,8 +528,19 @@ fn translate_fn(world: &World, t: &'static Target, sig: &syn::Signature, block: 
         }
     }
     if mut_self && matches!(t.what, What::Fn { .. }) {
-        tr.self_mutated = mutated_self_fields(block).iter().map(|f| lean_ident(f)).collect();
-        if tr.self_mutated.is_empty() { return Err(tr.err(sig, "`&mut self` function in which no supported mutation of a field was found")); }
+        let sname = tr.self_struct.clone().ok_or_else(|| tr.err(sig, "`&mut self` of a type that is not a registered struct"))?;
+        let mut fields = mutated_self_fields(block);
+        if fields.is_empty() { return Err(tr.err(sig, "`&mut self` function in which no supported mutation of a field was found")); }
+        // declaration order (independent of the order of the statements)
+        let pos = |f: &String| world.structs[&sname].fields.iter().position(|(n, _)| n == f).unwrap_or(usize::MAX);
+        fields.sort_by_key(pos);
+        // a mutated field is a parameter (its value at entry) and a mutable variable of the body; its final value is
+        // part of the result
+        for f in &fields {
+            let x = tr.flat_field(sig, "self", 0, &sname, f)?;
+            tr.env.push(Var { rust: format!("self.{}", f), lean: x.text.clone(), ty: x.ty.clone(), depth: 1, mutable: true, param: None, declared: true });
+            tr.self_mutated.push(x.text);
+        }
     }
     // body (same scope depth as the parameters: `let x = .. x ..` may shadow a parameter)
     let lines = match &t.what {
@@ -507,15 +586,19 @@ fn translate_fn(world: &World, t: &'static Target, sig: &syn::Signature, block: 
     fn collect_opaque(t: &RTy, out: &mut Vec<String>) {
         match t {
             RTy::Opaque(n) if n.chars().all(|c| c.is_alphanumeric()) && n != "Nat" => { if !out.contains(n) { out.push(n.clone()); } }
-            RTy::Opaque(n) => for w in n.split(|c: char| !c.is_alphanumeric()) { if !w.is_empty() && w.chars().next().unwrap().is_uppercase() && !["Int", "Nat", "Bool", "Char", "Option", "List", "Unit"].contains(&w) && !out.contains(&w.to_string()) { out.push(w.to_string()); } },
-            RTy::Opt(t) | RTy::VecFn(t) | RTy::VecList(t) => collect_opaque(t, out),
+            RTy::Opaque(n) => for w in n.split(|c: char| !c.is_alphanumeric()) { if !w.is_empty() && w.chars().next().unwrap().is_uppercase() && !["Int", "Nat", "Bool", "Char", "Option", "List", "Unit", "UInt64", "HMap", "VecDeque", "Inkayaku", "Rs"].contains(&w) && !out.contains(&w.to_string()) { out.push(w.to_string()); } },
+            RTy::Opt(t) | RTy::VecFn(t) | RTy::VecList(t) | RTy::VecDeque(t) => collect_opaque(t, out),
+            RTy::HashMap(k, v) => { collect_opaque(k, out); collect_opaque(v, out); }
+            RTy::Tuple(ts) => for t in ts { collect_opaque(t, out); },
             _ => {}
         }
     }
     for p in &params { collect_opaque(&p.ty, &mut tyvars); }
     collect_opaque(&ret, &mut tyvars);
+    for t in &ctor_fields { collect_opaque(t, &mut tyvars); }
+    if !tr.pending.is_empty() { return Err(tr.err(sig, "internal: pending statements left")); }
 
-    let ret_lean = if tr.self_mutated.is_empty() { ret.lean_atom() } else {
+    let ret_lean = if !ctor_fields.is_empty() { RTy::Tuple(ctor_fields.clone()).lean_atom() } else if tr.self_mutated.is_empty() { ret.lean_atom() } else {
         let mut parts = vec![];
         if ret != RTy::Unit { parts.push(ret.lean_atom()); }
         for f in &tr.self_mutated { parts.push(tr.lparams.iter().find(|p| p.name == *f).unwrap().ty.lean_atom()); }
@@ -546,6 +629,10 @@ fn translate_fn(world: &World, t: &'static Target, sig: &syn::Signature, block: 
             Origin::Fuel => "loop fuel (one unit per loop iteration)".to_string(),
         };
         s.push_str(&format!("* `{}` = {}\n", p.name, what));
+    }
+    if !ctor_fields.is_empty() {
+        let sn = tr.self_struct.clone().unwrap();
+        s.push_str(&format!("Result: the fields of the new `{}`: `{}`.\n", sn, world.structs[&sn].fields.iter().map(|f| f.0.clone()).collect::<Vec<_>>().join("`, `")));
     }
     if !tr.self_mutated.is_empty() {
         s.push_str(&format!("Result: {}the new value of `self.{}`.\n", if ret != RTy::Unit { "the returned value and " } else { "" }, tr.self_mutated.join("`, `self.")));
